@@ -23,6 +23,7 @@ type Engine struct {
 	db         *ContractDB
 	safetyAll  bool
 	verbose    bool
+	ginit      map[string]*Val
 }
 
 func loadEngine(repo string, patterns []string, preludeDir string, overlay map[string][]byte) (*Engine, error) {
@@ -202,4 +203,99 @@ func (e *Engine) safetyOn(fr *Frame) bool {
 		return false
 	}
 	return true
+}
+
+// globalInit evaluates the constant initialiser of a package-level variable (key "pkgpath.Name").
+func (e *Engine) globalInit(key string) (Val, bool) {
+	if e.ginit == nil {
+		e.ginit = map[string]*Val{}
+	}
+	if v, ok := e.ginit[key]; ok {
+		if v == nil {
+			return Val{}, false
+		}
+		return *v, true
+	}
+	e.ginit[key] = nil
+	i := strings.LastIndex(key, ".")
+	sp := e.ssaPkg(key[:i])
+	if sp == nil {
+		return Val{}, false
+	}
+	g, ok := sp.Members[key[i+1:]].(*ssa.Global)
+	if !ok {
+		return Val{}, false
+	}
+	t := g.Type().(*types.Pointer).Elem()
+	val := zeroVal(t)
+	ls := shape(t)
+	// every store rooted at g must be in init with constant indices and a constant value
+	for _, m := range sp.Members {
+		fn, isFn := m.(*ssa.Function)
+		if !isFn {
+			continue
+		}
+		fns := append([]*ssa.Function{fn}, fn.AnonFuncs...)
+		for _, f := range fns {
+			for _, b := range f.Blocks {
+				for _, in := range b.Instrs {
+					st, isStore := in.(*ssa.Store)
+					if !isStore {
+						continue
+					}
+					path, idx, root, okc := constAddr(st.Addr)
+					if root != ssa.Value(g) {
+						continue
+					}
+					if f.Name() != "init" || !okc {
+						return Val{}, false // written elsewhere or non-constant address: not a constant table
+					}
+					c, isC := st.Val.(*ssa.Const)
+					if !isC {
+						return Val{}, false
+					}
+					tmp := newSession(e, "init")
+					cv := tmp.constVal(c)
+					cls := shape(c.Type())
+					for k, cl := range cls {
+						for li, l := range ls {
+							if l.Path == path+cl.Path {
+								var ix []T
+								for _, n := range idx {
+									ix = append(ix, I(n))
+								}
+								if len(ix) == 0 {
+									val.L[li] = cv.L[k]
+								} else {
+									val.L[li] = nestedStore(val.L[li], ix, cv.L[k])
+								}
+							}
+						}
+					}
+				}
+			}
+		}
+	}
+	// methods may also store: scan methods of named types of the package
+	e.ginit[key] = &val
+	return val, true
+}
+
+func constAddr(addr ssa.Value) (path string, idx []int64, root ssa.Value, ok bool) {
+	switch a := addr.(type) {
+	case *ssa.Global:
+		return "", nil, a, true
+	case *ssa.FieldAddr:
+		p, ix, r, ok2 := constAddr(a.X)
+		stt := a.X.Type().Underlying().(*types.Pointer).Elem().Underlying().(*types.Struct)
+		return p + "." + stt.Field(a.Field).Name(), ix, r, ok2
+	case *ssa.IndexAddr:
+		p, ix, r, ok2 := constAddr(a.X)
+		c, isC := a.Index.(*ssa.Const)
+		if !isC {
+			return p + "[]", ix, r, false
+		}
+		return p + "[]", append(ix, c.Int64()), r, ok2
+	}
+	return "", nil, nil, false
 }
